@@ -104,3 +104,33 @@ func closuresOf(fn *ssa.Function) []*ssa.MakeClosure {
 	})
 	return out
 }
+
+// variadicElems returns the values stored into the backing array of a `slice t[:]` argument that
+// go/ssa builds for variadic calls and slice literals (index -> value).
+func variadicElems(arg ssa.Value) map[int]ssa.Value {
+	sl, ok := arg.(*ssa.Slice)
+	if !ok {
+		return nil
+	}
+	a, ok := sl.X.(*ssa.Alloc)
+	if !ok {
+		return nil
+	}
+	out := map[int]ssa.Value{}
+	for _, r := range *a.Referrers() {
+		ia, ok := r.(*ssa.IndexAddr)
+		if !ok {
+			continue
+		}
+		k, ok := constInt(ia.Index)
+		if !ok {
+			return nil
+		}
+		for _, r2 := range *ia.Referrers() {
+			if st, ok := r2.(*ssa.Store); ok && st.Addr == ssa.Value(ia) {
+				out[k] = st.Val
+			}
+		}
+	}
+	return out
+}
